@@ -286,6 +286,33 @@ PROPS['C12'] = dict(
                "harness and not modelled; harness. Axioms: none.",
 )
 
+BRANCH_NAMES['textforms'] = ['cases', 'outside-modelled-syntax', 'text', 'parse', 'report', 'decode', 'pack']
+PROPS['C17'] = dict(
+    level='proof',
+    projections=[dict(name='textforms', spec_index=1, n_quick=1500, n_thorough=30000)],
+    rule="textforms: stream values with decimals of either sign, exponents in [-40,40], up to 60 digits, zero and negative zero, trailing "
+         "fraction zeros, fewer digits than the scale; quotes of such decimals; timestamped values nested up to depth 3 with timestamps over the "
+         "full uint64 range (0, 1, 2^64-1); through MarshalText and UnmarshalTypedTextStreamValue. 60 fixed texts (signs, lone dots, exponents, "
+         "unanchored quote matches, timestamp 2^64, reordered / spaced JSON, unknown types) and valid texts with 1-3 byte mutations through the "
+         "parser. Reports with 0..5 values incl. nil values and SeqNr 0 through JSONReportCodec.Encode/Decode; Decode of documents with bad / "
+         "upper-case / short / long digests, SeqNr 0, unknown value types, malformed texts; Pack/Unpack with 0..5 signatures of 0..69 bytes and "
+         "unsorted signers, the expectation taken from an independent copy. Distinct by SHA-1 of the input.",
+    explanation="Theorems C17_* prove for all decimals (any sign, magnitude, scale), quotes, timestamped values of any nesting depth with "
+                "uint64 timestamps, reports and packed tuples that the modelled text / JSON forms parse back to the same value (numerically "
+                "equal decimals, identical everything else): Decimal.String -> NewFromString, the quote and timestamped-value regular "
+                "expressions (their source text is regenerated from /repo and must equal the modelled expressions), the JSON {t,v} envelope "
+                "with string escaping, hex digests, SeqNr check. The model is compared with the Go functions on every run (texts byte for "
+                "byte; JSON documents at the level of the structs around encoding/json) and the round-trip predicate is evaluated on the Go results.",
+    assumptions=["encoding/json is taken at struct level (field values in = field values out) except for the {t,v} envelope inside timestamped "
+                 "values, which is modelled byte for byte for the canonical encoder output; inputs outside that canonical JSON shape or using "
+                 "scientific notation are not compared (counted as outside-modelled-syntax)",
+                 "reports carry SeqNr >= 1 (Decode rejects 0)", "report passed to Pack is the compact JSON produced by Encode"],
+    level_text="Coq theorems (unbounded size, depth and digits) over byte-level models of the stream value text forms and struct-level models of "
+               "the JSON report codec and Pack/Unpack; regular expressions regenerated from /repo; tied to the Go code by differential testing.",
+    level_note="Trusted: Coq kernel + vm_compute; hand-written models; tools/srcscan extraction of the two regular expressions; encoding/json and "
+               "base64 taken at struct level; harness. Axioms: none.",
+)
+
 
 def load_known_findings(root):
     p = os.path.join(root, 'known_findings.jsonl')
